@@ -256,12 +256,20 @@ func (tr *Tr) relevantStructs() []*types.Named {
 	}
 	sort.Strings(keys)
 	tr.relStructs = []*types.Named{}
+	tr.relStructsAll = []*types.Named{}
 	for _, k := range keys {
+		tr.relStructsAll = append(tr.relStructsAll, seen[k])
 		if len(tr.P.immutableFields(seen[k])) > 0 {
 			tr.relStructs = append(tr.relStructs, seen[k])
 		}
 	}
 	return tr.relStructs
+}
+
+// typeFactStructs: every struct type reachable from the signature (with or without immutable fields).
+func (tr *Tr) typeFactStructs() []*types.Named {
+	tr.relevantStructs()
+	return tr.relStructsAll
 }
 
 // keepImmutableFields: after a havoc that replaced the heap (old -> current), objects that existed before keep the slots of
@@ -370,7 +378,7 @@ func (tr *Tr) pointerTypeFacts(fr *Frame, elem types.Type, p Val) {
 		return
 	}
 	f := tr.f
-	for _, n := range tr.relevantStructs() {
+	for _, n := range tr.typeFactStructs() {
 		if containsByValue(n, elem, 0) {
 			continue
 		}
@@ -388,7 +396,7 @@ func (tr *Tr) pointerTypeFacts(fr *Frame, elem types.Type, p Val) {
 // as a struct type S without any E inside (same reasoning as pointerTypeFacts).
 func (tr *Tr) sliceTypeFacts(elem types.Type, reg *Term) {
 	f := tr.f
-	for _, n := range tr.relevantStructs() {
+	for _, n := range tr.typeFactStructs() {
 		if containsByValue(n, elem, 0) {
 			continue
 		}
